@@ -94,7 +94,9 @@ NeverOut(ev) == ev.cls \in {"abort", "null"} \/ (ev.cls = "in" /\ ev.sb = ev.own
 EntryAllowed(ev) ==
   IF ev.cls = "in" /\ ev.sb = "s0"
     THEN ev.out = "ok" /\ Eq(ev.stored, FromInt(ev.off))
-    ELSE ev.out = "abort"
+    ELSE /\ ev.out = "abort"
+         \* a refused address never reaches sandbox memory: the cell still holds the sentinel
+         /\ (ev.cellapi => Eq(ev.stored, FromInt(48879)))
 
 \* storing application address (sb, off) into a pointer cell of sandbox `own`
 PtrStoreAllowed(ev) ==
